@@ -6,6 +6,9 @@ use crate::cache::error::{CacheError, Result};
 use crate::server::timer;
 use dashmap::mapref::multiple::RefMulti;
 use dashmap::{DashMap, ReadOnlyView};
+#[cfg(feature = "memcrs_verif")]
+use crate::verif::{AtomicU64, Ordering};
+#[cfg(not(feature = "memcrs_verif"))]
 use std::sync::atomic::{AtomicU64, Ordering};
 use std::sync::Arc;
 
@@ -44,6 +47,40 @@ impl MemoryStore {
 
     fn get_cas_id(&self) -> u64 {
         self.cas_id.fetch_add(1, Ordering::Release)
+    }
+}
+
+#[cfg(feature = "memcrs_verif")]
+pub struct VerifItem {
+    pub key: KeyType,
+    pub value: crate::cache::cache::ValueType,
+    pub timestamp: u64,
+    pub cas: u64,
+    pub flags: u32,
+    pub time_to_live: u32,
+}
+
+#[cfg(feature = "memcrs_verif")]
+impl MemoryStore {
+    pub fn verif_dump(&self) -> Vec<VerifItem> {
+        let mut items: Vec<VerifItem> = self
+            .memory
+            .iter()
+            .map(|e| VerifItem {
+                key: e.key().clone(),
+                value: e.value().value.clone(),
+                timestamp: e.value().header.timestamp,
+                cas: e.value().header.cas,
+                flags: e.value().header.flags,
+                time_to_live: e.value().header.time_to_live,
+            })
+            .collect();
+        items.sort_by(|a, b| a.key.cmp(&b.key));
+        items
+    }
+
+    pub fn verif_cas_counter(&self) -> u64 {
+        self.cas_id.verif_peek()
     }
 }
 
